@@ -78,6 +78,10 @@ Definition size_max : Z := 18446744073709551616.
 (* a request above this cannot be allocated: std::length_error / std::bad_alloc *)
 Definition alloc_limit : Z := 70368744177664.
 
+(* if (total_length < out.size()), or <= : both are the same program *)
+Definition overhang_test (total size : Z) : bool :=
+  if warc_overhang_le then total <=? size else total <? size.
+
 Section Warc.
   Variable rstate : Type.
   (* reader_.Read(buf, n), n > 0: None = exception from the reader *)
@@ -187,7 +191,7 @@ Section Warc.
         | HdrOk rs2 out2 consumed2 len =>
           (* size_t arithmetic *)
           let total := (Z.of_nat consumed2 + (len mod size_max) + Z.of_N warc_trailer_len) mod size_max in
-          if total <? Z.of_nat (length out2) then
+          if overhang_test total (Z.of_nat (length out2)) then
             let rec := firstn (Z.to_nat total) out2 in
             if list_eqb (skipn (length rec - N.to_nat warc_trailer_len) rec) warc_trailer
             then RecOk rec rs2 (skipn (Z.to_nat total) out2)
